@@ -359,6 +359,13 @@ class Report(object):
             'wall_s': round(time.time() - self.t0, 2),
             'violations': len(self.violations),
         }
+        want = os.environ.get('VERIF_REPLAY_SIG')
+        if want is not None:
+            again = want in sigs or want in self.known_hit
+            print('REPLAY property=%s signature=%r reproduced=%s' % (
+                self.prop, want, 'yes' if again else 'no'))
+            sys.stdout.flush()
+            return 1 if again and want in sigs else 0
         path = os.path.join(EVIDENCE, self.prop + '.json')
         tmp = path + '.tmp'
         with open(tmp, 'w') as f:
